@@ -65,8 +65,10 @@ THEOREMS = [
     'Sbepp.Properties.C07.class_name_not_member',
     'Sbepp.Properties.C07.keywords_rejected',
     'Sbepp.Properties.C07.public_paths_resolve',
-    'Sbepp.Properties.C07.size_bytes_params_distinct_full_false',
-    'Sbepp.Properties.C07.size_bytes_params_distinct_partial',
+    'Sbepp.Properties.C07.param_naming_shape',
+    'Sbepp.Properties.C07.unique_param_terminates',
+    'Sbepp.Properties.C07.size_bytes_params_distinct',
+    'Sbepp.Properties.C07.size_bytes_call_args',
     'Sbepp.Properties.C07.includes_closed',
     'Sbepp.Properties.C07.includes_closed_partial',
 ]
@@ -496,7 +498,8 @@ def streams(chk, run):
     lst = []
     for i in range(12 if thorough else 6):
         rng = random.Random((seed * 1000003 + i) * 31 + 8)
-        s, f = G.path_clash_schema(rng)
+        # the first two are the fixed probes of fix 0030: the three-way clash in a message and inside a group
+        s, f = G.path_clash_schema(rng, force={0: (3, False), 1: (3, True)}.get(i))
         add(f)
         lst.append(s)
     out.append(('path-clash', lst, True, configs))
